@@ -1355,6 +1355,14 @@ func sgRunCase(id string, in sgInput) Case {
 		e := forkEnv()
 		w := sgWorldOf(e)
 		c.tags["route:"+in.Route] = true
+		// the ante handler runs in DeliverTx mode, or (one case in three) in CheckTx mode, where
+		// the sender's account is created on the fly and the node's own fee floor applies
+		if in.Seed%3 == 0 {
+			e.Ctx = e.Ctx.WithIsCheckTx(true)
+			c.tags["mode:CheckTx"] = true
+		} else {
+			c.tags["mode:DeliverTx"] = true
+		}
 		if strings.HasPrefix(in.Route, "eth-") {
 			w.runEthMutations(c, e, r, in.Route)
 		} else {
